@@ -22,8 +22,9 @@ def contained(P: Project, f: FuncInfo, depth: int = 0) -> bool:
     _CONTAINED[key] = True  # co-inductive assumption for (self-)recursive calls: exceptions can only start at non-recursive operations
 
     def pred(node, st: PState, an: PathAnalysis):
+        hv = tuple(h.name for h in an.handler_stack if h.name)
         for c in calls_in_order(node):
-            if is_benign_call(c):
+            if is_benign_call(c, hv):
                 continue
             if depth < 3:
                 g = P.resolve_call(f, c)
@@ -45,8 +46,9 @@ def fallible_except_contained(P: Project, f: FuncInfo, extra_total: Optional[Cal
     calls of contained package functions and whatever `extra_total` accepts."""
 
     def pred(node, st: PState, an: PathAnalysis):
+        hv = tuple(h.name for h in an.handler_stack if h.name)
         for c in calls_in_order(node):
-            if is_benign_call(c):
+            if is_benign_call(c, hv):
                 continue
             if extra_total is not None and extra_total(c):
                 continue
